@@ -1140,6 +1140,13 @@ func runHist(t *testing.T, seed int64, n int, out *Out) {
 					stats["fault/genesisRoundTrip/"+name]++
 				}
 			}
+			if os.Getenv("VERIF_GOVSS") != "" && (b == 2 || h.r.Intn(40) == 0) {
+				// governance sets the lending vault's epoch length (early in the history, and now and then again)
+				if sh := h.govVaultShock(); sh != "" {
+					curShocks = append(curShocks, sh)
+					stats["govVault/applied"]++
+				}
+			}
 			if os.Getenv("VERIF_GOVPOOL") != "" && h.r.Intn(10) == 0 {
 				// governance rewrites one pool's parameters (oracle switch, swap fee)
 				if sh, tx := h.govPoolShock(); sh != "" {
